@@ -49,6 +49,7 @@ structure Facts where
   fromTextShape : List String        -- shared accesses of `Path.from_text`, in program order
   getHandlerShape : List String      -- shared accesses of `TargetRegistry.get_handler`
   sharedWrites : List (String × String)   -- (function, write) for every write to module/class state in a function
+  mutableDefaults : List (String × String) -- (function, parameter=default) for every mutable default argument
   glomScope : List (String × String)      -- the dict literal of `glom()`'s `new_child`: key → how its value is built
   glomScopeRoot : String                  -- what `glom()` derives the scope from
   childScope : List (String × String)     -- the dict literal of `_glom`'s `new_child`
@@ -67,6 +68,7 @@ def Facts.WF (f : Facts) : Bool :=
   f.fromTextShape == expectedFromText &&
   f.getHandlerShape == expectedGetHandler &&
   f.sharedWrites == [("Path.from_text", "cls._CACHE[PATH_STAR][text]"), ("Path.from_text.create", "cls._STAR_WARNED")] &&
+  f.mutableDefaults.isEmpty &&
   f.glomScope == [("Path", "kwargs.pop:[]"), ("Inspect", "kwargs.pop:None"), ("MODE", "name:AUTO"),
     ("MIN_MODE", "const:None"), ("CHILD_ERRORS", "[]"), ("'globals'", "call:ScopeVars({}, {})")] &&
   f.glomScopeRoot == "_DEFAULT_SCOPE.new_child" &&
